@@ -203,3 +203,23 @@ func H_C16_template() {
 	}
 	verif.Reach("end")
 }
+
+// H_C16_two_args: two string placeholders in one statement; neither
+// argument can change the clause structure or leak into the other literal.
+func H_C16_two_args() {
+	maxLen := 2 + verif.Tier()
+	s1 := verif.Str("s1", maxLen, "'\\- a#")
+	s2 := verif.Str("s2", maxLen, "'\\- a#")
+	out, err := SanitizeSQL("SELECT $1 AS v, $2 AS w FROM dual WHERE $2 = $2", s1, s2)
+	verif.Assert(err == nil, "sanitize-ok")
+	if err != nil {
+		return
+	}
+	got, err := echo(out)
+	verif.Assert(err == nil, "parses-and-runs")
+	if err != nil {
+		return
+	}
+	verif.Assert(verif.Eq(got, []any{genql.Map{"v": s1, "w": s2}}), "echo")
+	verif.Reach("end")
+}
